@@ -208,10 +208,13 @@ def vrender(v):
 
 
 def apply_fmt(text, fmt):
-    """the documented formatting rules; returns None when the format cannot
-    apply to the value (expected: a language error)"""
+    """the documented formatting rules; returns the SET of acceptable texts
+    (the documentation shows rounding only for decimals that have more
+    digits than requested, so for other numbers every usual spelling of the
+    rounded value is accepted), or None when the format cannot apply to the
+    value (expected: a language error)"""
     if fmt is None:
-        return text
+        return {text}
     spec = fmt
     leading, zeroes = True, False
     if spec.startswith("-"):
@@ -229,24 +232,40 @@ def apply_fmt(text, fmt):
         width, digits = int(w or "0"), int(d or "0")
     else:
         width = int(spec or "0")
+    texts = {text}
     if base16:
         try:
-            text = format(int(text), "x")
+            texts = {format(int(text), "x")}
         except ValueError:
             return None
     elif digits != -1:
         try:
-            text = str(round(float(text), digits))
+            r = round(float(text), digits)
         except ValueError:
             return None
-    while len(text) < width:
-        if leading:
-            text = " " + text
-        elif zeroes:
-            text = "0" + text
-        else:
-            text = text + " "
-    return text
+        texts = {str(r), format(r, ".%df" % digits)}
+        if r == int(r):
+            texts.add(str(int(r)))
+        # a value exactly half way between two roundings: both accepted
+        scaled = float(text) * 10 ** digits
+        if abs(scaled - int(scaled)) == 0.5:
+            for alt in (int(scaled) / 10 ** digits,
+                        (int(scaled) + (1 if scaled > 0 else -1))
+                        / 10 ** digits):
+                texts |= {str(alt), format(alt, ".%df" % digits)}
+                if alt == int(alt):
+                    texts.add(str(int(alt)))
+    out = set()
+    for t in texts:
+        while len(t) < width:
+            if leading:
+                t = " " + t
+            elif zeroes:
+                t = "0" + t
+            else:
+                t = t + " "
+        out.add(t)
+    return out
 
 
 def explore_interp(chunk):
@@ -267,9 +286,9 @@ def explore_interp(chunk):
                             ok = r[0] == "rt"
                             exp = "language error"
                         else:
-                            exp = pre + ins + post
-                            ok = r[0] == "value" and core.strict_eq(
-                                core.from_value(r[1]), exp)
+                            exp = sorted(pre + i + post for i in ins)
+                            ok = r[0] == "value" and any(core.strict_eq(
+                                core.from_value(r[1]), e) for e in exp)
                         if not ok:
                             agg.violation(
                                 {"fn": "s", "fmt": str(fmt),
@@ -281,9 +300,9 @@ def explore_interp(chunk):
                 r = run_s(tpl, v)
                 agg.count("steps")
                 if ins is not None:
-                    exp = ins + "|" + vtext(v)
-                    if not (r[0] == "value" and core.strict_eq(
-                            core.from_value(r[1]), exp)):
+                    exp = sorted(i + "|" + vtext(v) for i in ins)
+                    if not (r[0] == "value" and any(core.strict_eq(
+                            core.from_value(r[1]), e) for e in exp)):
                         agg.violation(
                             {"fn": "s", "fmt": str(fmt),
                              "vkind": type(v).__name__, "two": True},
@@ -301,7 +320,8 @@ def explore_interp(chunk):
                     kw = dict(zip("vwx", vals))
                     r = run("sprintf%d" % n, t=tpl, **kw)
                     agg.count("steps")
-                    parts = [apply_fmt(vtext(vals[i]), fmt) for i in perm]
+                    parts = [sorted(apply_fmt(vtext(vals[i]), fmt))[0]
+                             for i in perm]
                     exp = " ".join(parts)
                     agg.cls(("sprintf", n, fmt, r[0]))
                     if not (r[0] == "value" and core.strict_eq(
